@@ -1805,10 +1805,13 @@ func (x *actorSystem) Kill(ctx context.Context, name string) error {
 		return gerrors.NewErrActorNotFound(name)
 	}
 
+	// a node handed out by the lookup can be emptied by a concurrent deleteNode
+	// (the death watch reaping a stopped actor): nil then means "already gone"
 	pidNode, exist := x.actors.nodeByName(name)
 	if exist {
-		pid := pidNode.value()
-		return pid.Shutdown(ctx)
+		if pid := pidNode.value(); pid != nil {
+			return pid.Shutdown(ctx)
+		}
 	}
 
 	if x.InCluster() {
@@ -2004,7 +2007,8 @@ func (x *actorSystem) ActorOf(ctx context.Context, actorName string) (*PID, erro
 	// dominated SendAsync/SendSync throughput under high parallelism.
 	if pidnode, ok := x.actors.nodeByName(actorName); ok {
 		pid := pidnode.value()
-		if pid.IsStopping() {
+		// nil: the node was emptied by a concurrent deleteNode after the lookup
+		if pid == nil || pid.IsStopping() {
 			return nil, gerrors.NewErrActorNotFound(actorName)
 		}
 		return pid, nil
